@@ -58,8 +58,8 @@ def run_mutant(m):
                 res["detail"] = r.stdout[-1500:]
                 return res
             for line in r.stdout.splitlines():
-                if line.startswith("SELFTEST-KEY "):
-                    _, p_, key, kind = line.split(" ", 3)
+                if line.startswith("SELFTEST-KEY\t"):
+                    _, p_, key, kind = line.split("\t", 3)
                     fired.append((p_, key, kind))
         res["fired"] = fired
         ok = True
